@@ -532,8 +532,38 @@ Proof.
   apply H3. intros c2 Hne. cbn [b_blk]. symmetry. apply zlookup_zremove_other. exact Hne.
 Qed.
 
-Lemma agree_wake_client now s b u W :
-  agreeW b (u :: W) -> agreeW (snd (wake_client now s b u)) W.
+(** what a wake-up adds to the wake queue: nothing, except when it puts its element back for a
+    client that has gone - then the next waiter of the key is notified (0715a3b) *)
+Definition renotified (b : blocking) (db : Z) (k : bytes) : list wakeup :=
+  match reg_get (b_reg b) (db, k) with
+  | [] => []
+  | w :: _ => [{| u_conn := w_conn w; u_db := db; u_key := k; u_left := w_left w; u_at := w_at w |}]
+  end.
+Lemma notify_key_ready_wake b db k : b_wake (notify_key_ready b db k) = b_wake b ++ renotified b db k.
+Proof. unfold notify_key_ready, renotified. destruct (reg_get (b_reg b) (db, k)); [rewrite app_nil_r|]; reflexivity. Qed.
+Lemma notify_with_wake b W db k :
+  notify_key_ready (with_wake b W) db k = with_wake (notify_key_ready b db k) (W ++ renotified b db k).
+Proof.
+  unfold notify_key_ready, renotified. cbn [with_wake b_reg b_wake].
+  destruct (reg_get (b_reg b) (db, k)); [rewrite app_nil_r; reflexivity|reflexivity].
+Qed.
+Lemma app_self_nil {A} (l ex : list A) : l = l ++ ex -> ex = [].
+Proof. intros H. rewrite <- (app_nil_r l) in H at 1. apply app_inv_head in H. symmetry. exact H. Qed.
+Lemma wake_client_wake now s b u :
+  exists ex, b_wake (snd (wake_client now s b u)) = b_wake b ++ ex /\
+             (ex = [] \/ (zlookup (u_conn u) (b_blk b) = None /\ ex = renotified b (u_db u) (u_key u))).
+Proof.
+  unfold wake_client.
+  destruct (on_key (fst (purge_key now (get_db s (u_db u), []) (u_key u))) (u_key u) (e_pop (u_left u))) as [r d'].
+  destruct (zlookup (u_conn u) (b_blk b)) as [st|];
+    [destruct (recheck (bl_left st) d' (bl_keys st)) as [[[k v]|] d'']|]; destruct r; cbn [snd];
+    try (exists []; rewrite app_nil_r; split; [reflexivity|left; reflexivity]).
+  exists (renotified b (u_db u) (u_key u)). split; [apply notify_key_ready_wake|right; split; reflexivity].
+Qed.
+
+Lemma agree_wake_client now s b u W ex :
+  agreeW b (u :: W) -> b_wake (snd (wake_client now s b u)) = b_wake b ++ ex ->
+  agreeW (snd (wake_client now s b u)) (W ++ ex).
 Proof.
   intros HA. unfold wake_client.
   destruct (on_key (fst (purge_key now (get_db s (u_db u), []) (u_key u))) (u_key u) (e_pop (u_left u))) as [r d'].
@@ -545,19 +575,30 @@ Proof.
                                  | (None, d'') => (set_db s (u_db u) d'', with_reg b (reregister (b_reg b) (u_db u) (u_conn u) (bl_keys st) (bl_left st) (bl_dl st) (u_at u)))
                                  end)) W).
     { destruct (recheck (bl_left st) d' (bl_keys st)) as [[[k v]|] d'']; cbn [snd]; [apply Deliver|apply agree_reregister; assumption]. }
-    destruct r; cbn [snd]; try exact Again. apply Deliver.
+    assert (Enil : b_wake (snd (match recheck (bl_left st) d' (bl_keys st) with
+                                 | (Some (k, v), d'') => (set_db s (u_db u) d'', unblock (emit b (u_conn u) (FArray [FBulk k; FBulk v])) (u_conn u))
+                                 | (None, d'') => (set_db s (u_db u) d'', with_reg b (reregister (b_reg b) (u_db u) (u_conn u) (bl_keys st) (bl_left st) (bl_dl st) (u_at u)))
+                                 end)) = b_wake b)
+      by (destruct (recheck (bl_left st) d' (bl_keys st)) as [[[k v]|] d'']; reflexivity).
+    destruct r; cbn [snd]; intros E;
+      try (rewrite Enil in E; apply app_self_nil in E; subst ex; rewrite app_nil_r; exact Again).
+    cbn [unblock emit with_blk b_wake] in E. apply app_self_nil in E. subst ex. rewrite app_nil_r. apply Deliver.
   - assert (Drop : agreeW b W) by (eapply agree_drop_wake; eauto).
-    destruct r; cbn [snd]; exact Drop.
+    destruct r; cbn [snd]; intros E; try (apply app_self_nil in E; subst ex; rewrite app_nil_r; exact Drop).
+    (* the element goes back, the next waiter of the key is notified *)
+    rewrite notify_key_ready_wake in E. apply app_inv_head in E. subst ex.
+    unfold agreeW in *. rewrite <- notify_with_wake. apply agree_notify. exact Drop.
+Qed.
+(** the shape the event loop needs: the rest of the batch, then the queue *)
+Lemma agree_wake_next now s b u l :
+  agreeW b (u :: l ++ b_wake b) ->
+  agreeW (snd (wake_client now s b u)) (l ++ b_wake (snd (wake_client now s b u))).
+Proof.
+  intros H. destruct (wake_client_wake now s b u) as (ex & E & _). rewrite E, app_assoc.
+  apply agree_wake_client; assumption.
 Qed.
 
 (** process_wakeups: the requests taken out of the queue are handled one after the other *)
-Lemma wake_client_wake now s b u : b_wake (snd (wake_client now s b u)) = b_wake b.
-Proof.
-  unfold wake_client.
-  destruct (on_key (fst (purge_key now (get_db s (u_db u), []) (u_key u))) (u_key u) (e_pop (u_left u))) as [r d'].
-  destruct (zlookup (u_conn u) (b_blk b)) as [st|];
-    [destruct (recheck (bl_left st) d' (bl_keys st)) as [[[k v]|] d'']|]; destruct r; reflexivity.
-Qed.
 Lemma agree_wake_fold now : forall l sb,
   (b_crashed (snd sb) = true \/ agreeW (snd sb) (l ++ b_wake (snd sb))) ->
   b_crashed (snd (fold_left (wake_step now) l sb)) = true \/ agree (snd (fold_left (wake_step now) l sb)).
@@ -566,7 +607,7 @@ Proof.
   - destruct H as [H|H]; [left; exact H|right; apply agreeW_self; exact H].
   - apply IH. unfold wake_step. cbn [fst snd]. destruct (b_crashed b) eqn:Ec; [left; exact Ec|].
     destruct H as [H|H]; [discriminate|]. cbn [app] in H. right.
-    rewrite wake_client_wake. apply agree_wake_client. exact H.
+    apply agree_wake_next. exact H.
 Qed.
 Lemma agree_process_wakeups now s b :
   b_crashed b = true \/ agree b ->
@@ -1250,34 +1291,76 @@ Proof.
   { intros bx E1 E2. split; [exact E1|]. intros c2. rewrite E2. split; [intros G; left; exact G|intros [G|[_ G]]; exact G]. }
   destruct (zlookup (u_conn u) (b_blk b)) as [st|];
     [destruct (recheck (bl_left st) d' (bl_keys st)) as [[[k v]|] d'']|]; destruct r; cbn [snd];
-    first [apply Un | apply Id; reflexivity].
+    first [apply Un | apply Id; reflexivity
+          | apply Id; [exact (proj1 (proj2 (proj2 (proj2 (notify_key_ready_fields _ _ _)))))|exact (proj1 (notify_key_ready_fields _ _ _))]].
 Qed.
 
-(** the wake-up step: the queue loses its first 32 requests, nobody goes on the list of the
-    clients that went away, and only connections whose request was handled can have left the
-    Blocked state *)
+Lemma wake_step_eq0 now s b u : wake_step now (s, b) u = if b_crashed b then (s, b) else wake_client now s b u.
+Proof. reflexivity. Qed.
+Lemma wake_client_crashed0 now s b u : b_crashed (snd (wake_client now s b u)) = b_crashed b.
+Proof.
+  unfold wake_client. destruct (on_key _ (u_key u) (e_pop (u_left u))) as [r d'].
+  destruct (zlookup (u_conn u) (b_blk b)) as [st|];
+    [destruct (recheck (bl_left st) d' (bl_keys st)) as [[[k v]|] d'']|]; destruct r; cbn [snd];
+    first [reflexivity | exact (proj1 (proj2 (proj2 (notify_key_ready_fields _ _ _))))].
+Qed.
+(** the wake-up step: the queue loses its first 32 requests (re-notifications join its back),
+    nobody goes on the list of the clients that went away, and only connections whose request was
+    handled can have left the Blocked state *)
 Lemma process_wakeups_misc now s b :
   b_dead (snd (process_wakeups now s b)) = b_dead b /\
-  b_wake (snd (process_wakeups now s b)) = skipn 32 (b_wake b) /\
+  (exists ex, b_wake (snd (process_wakeups now s b)) = skipn 32 (b_wake b) ++ ex) /\
   forall c2, zlookup c2 (b_blk (snd (process_wakeups now s b))) = None ->
              zlookup c2 (b_blk b) = None \/ In c2 (map u_conn (firstn 32 (b_wake b))).
 Proof.
   unfold process_wakeups.
   assert (F : forall l sb, b_dead (snd (fold_left (wake_step now) l sb)) = b_dead (snd sb) /\
-             b_wake (snd (fold_left (wake_step now) l sb)) = b_wake (snd sb) /\
+             (exists ex, b_wake (snd (fold_left (wake_step now) l sb)) = b_wake (snd sb) ++ ex) /\
              forall c2, zlookup c2 (b_blk (snd (fold_left (wake_step now) l sb))) = None ->
                         zlookup c2 (b_blk (snd sb)) = None \/ In c2 (map u_conn l)).
-  { induction l as [|u l IH]; intros sb; cbn [fold_left map]; [split; [reflexivity|split; [reflexivity|intros c2 Hn; left; exact Hn]]|].
-    destruct (IH (wake_step now sb u)) as (I1 & I2 & I3).
-    assert (W : b_dead (snd (wake_step now sb u)) = b_dead (snd sb) /\ b_wake (snd (wake_step now sb u)) = b_wake (snd sb) /\
+  { induction l as [|u l IH]; intros sb; cbn [fold_left map];
+      [split; [reflexivity|split; [exists []; rewrite app_nil_r; reflexivity|intros c2 Hn; left; exact Hn]]|].
+    destruct (IH (wake_step now sb u)) as (I1 & (ex2 & I2) & I3).
+    assert (W : b_dead (snd (wake_step now sb u)) = b_dead (snd sb) /\ (exists ex, b_wake (snd (wake_step now sb u)) = b_wake (snd sb) ++ ex) /\
                 forall c2, zlookup c2 (b_blk (snd (wake_step now sb u))) = None -> zlookup c2 (b_blk (snd sb)) = None \/ c2 = u_conn u).
-    { unfold wake_step. destruct (b_crashed (snd sb)); [split; [reflexivity|split; [reflexivity|intros c2 Hn; left; exact Hn]]|].
-      destruct (wake_client_misc now (fst sb) (snd sb) u) as (M1 & M2). split; [exact M1|]. split; [apply wake_client_wake|].
+    { unfold wake_step. destruct (b_crashed (snd sb));
+        [split; [reflexivity|split; [exists []; rewrite app_nil_r; reflexivity|intros c2 Hn; left; exact Hn]]|].
+      destruct (wake_client_misc now (fst sb) (snd sb) u) as (M1 & M2). split; [exact M1|].
+      split; [destruct (wake_client_wake now (fst sb) (snd sb) u) as (ex & E & _); exists ex; exact E|].
       intros c2 Hn. apply M2 in Hn. destruct Hn as [Hn|[Hn _]]; [left; exact Hn|right; exact Hn]. }
-    destruct W as (W1 & W2 & W3). split; [congruence|]. split; [congruence|].
+    destruct W as (W1 & (ex1 & W2) & W3). split; [congruence|]. split; [exists (ex1 ++ ex2); rewrite I2, W2, app_assoc; reflexivity|].
     intros c2 Hn. destruct (I3 c2 Hn) as [G|G]; [destruct (W3 c2 G) as [G2|G2]; [left; exact G2|right; left; congruence]|right; right; exact G]. }
   destruct (F (firstn 32 (b_wake b)) (s, with_wake b (skipn 32 (b_wake b)))) as (F1 & F2 & F3).
   cbn [snd with_wake b_dead b_wake b_blk] in F1, F2, F3. split; [exact F1|]. split; [exact F2|exact F3].
+Qed.
+(** a wake-up that is (still or newly) queued for a connection that is not Blocked belongs to a
+    connection that was like that before: P is any property of such connections *)
+Lemma wake_fold_gone now (P : Z -> Prop) : forall l s b,
+  agreeW b (l ++ b_wake b) -> b_crashed b = false ->
+  (forall x, In x (l ++ b_wake b) -> zlookup (u_conn x) (b_blk b) = None -> P (u_conn x)) ->
+  forall x, In x (b_wake (snd (fold_left (wake_step now) l (s, b)))) ->
+            zlookup (u_conn x) (b_blk (snd (fold_left (wake_step now) l (s, b)))) = None -> P (u_conn x).
+Proof.
+  induction l as [|u l IH]; intros s b HA Hc HG; cbn [fold_left snd].
+  - intros x Hx Hn. apply HG; assumption.
+  - rewrite wake_step_eq0, Hc. cbn [app] in HA.
+    pose proof (agree_wake_next now s b u l HA) as Hnext.
+    destruct (wake_client_wake now s b u) as (ex & E & Eex).
+    destruct (wake_client_misc now s b u) as (_ & M2).
+    pose proof (wake_client_crashed0 now s b u) as Hcr.
+    destruct (wake_client now s b u) as [s1 b1]. cbn [snd] in *.
+    apply IH; [exact Hnext|congruence|].
+    intros x Hx Hn. rewrite E, app_assoc in Hx. apply in_app_or in Hx. destruct Hx as [Hx|Hx].
+    + apply M2 in Hn. destruct Hn as [Hn|[Hn _]]; [apply HG; [right; exact Hx|exact Hn]|].
+      exfalso. destruct HA as (_ & _ & A3 & _). unfold wakes_unique in A3. cbn [with_wake b_wake map] in A3.
+      apply NoDup_cons_iff in A3. destruct A3 as [A3 _]. apply A3. rewrite <- Hn. apply in_map. exact Hx.
+    + destruct Eex as [->|(Hnb & ->)]; [destruct Hx|]. exfalso.
+      unfold renotified in Hx. destruct (reg_get (b_reg b) (u_db u, u_key u)) as [|w q] eqn:Eg; [destruct Hx|].
+      destruct Hx as [<-|[]]. cbn [u_conn] in Hn.
+      assert (Hw : In w (reg_get (b_reg b) (u_db u, u_key u))) by (rewrite Eg; left; reflexivity).
+      destruct (reg_get_in _ _ _ Hw) as [q0 [K1 K2]]. destruct HA as (A1 & _).
+      destruct (A1 _ _ _ K1 K2) as (st & T & _). cbn [with_wake b_blk] in T.
+      apply M2 in Hn. destruct Hn as [Hn|[Hn _]]; congruence.
 Qed.
 Lemma drop_fold_reg : forall l b rk w, In w (reg_get (b_reg (fold_left drop_conn l b)) rk) -> In w (reg_get (b_reg b) rk).
 Proof.
@@ -1317,28 +1400,13 @@ Proof.
   - (* wake-ups *)
     destruct (agree_process_wakeups now s b (or_intror HA)) as [H|H]; [left; exact H|right].
     split; [exact H|]. rewrite process_wakeups_conns. split; [exact H0|].
-    unfold process_wakeups.
-    assert (F : forall l sb, b_dead (snd (fold_left (wake_step now) l sb)) = b_dead (snd sb) /\
-               b_wake (snd (fold_left (wake_step now) l sb)) = b_wake (snd sb) /\
-               forall c2, zlookup c2 (b_blk (snd (fold_left (wake_step now) l sb))) = None ->
-                          zlookup c2 (b_blk (snd sb)) = None \/ In c2 (map u_conn l)).
-    { induction l as [|u l IH]; intros sb; cbn [fold_left map]; [repeat split; auto|].
-      destruct (IH (wake_step now sb u)) as (I1 & I2 & I3).
-      assert (W : b_dead (snd (wake_step now sb u)) = b_dead (snd sb) /\ b_wake (snd (wake_step now sb u)) = b_wake (snd sb) /\
-                  forall c2, zlookup c2 (b_blk (snd (wake_step now sb u))) = None -> zlookup c2 (b_blk (snd sb)) = None \/ c2 = u_conn u).
-      { unfold wake_step. destruct (b_crashed (snd sb)); [repeat split; auto|].
-        destruct (wake_client_misc now (fst sb) (snd sb) u) as (M1 & M2). split; [exact M1|]. split; [apply wake_client_wake|].
-        intros c2 Hn. apply M2 in Hn. destruct Hn as [Hn|[Hn _]]; [left; exact Hn|right; exact Hn]. }
-      destruct W as (W1 & W2 & W3). split; [congruence|]. split; [congruence|].
-      intros c2 Hn. destruct (I3 c2 Hn) as [G|G]; [destruct (W3 c2 G) as [G2|G2]; [left; exact G2|right; left; congruence]|right; right; exact G]. }
-    destruct (F (firstn 32 (b_wake b)) (s, with_wake b (skipn 32 (b_wake b)))) as (F1 & F2 & F3).
-    cbn [snd with_wake b_dead b_wake b_blk] in F1, F2, F3. split.
-    + intros u Hu Hn. rewrite F2 in Hu. destruct (F3 _ Hn) as [G|G].
-      * apply HO; [|exact G]. rewrite <- (firstn_skipn 32 (b_wake b)). apply in_or_app. right. exact Hu.
-      * (* a wake-up still queued belongs to another connection than those just handled *)
-        exfalso. destruct HA as (_ & _ & A3 & _). unfold wakes_unique in A3. rewrite <- (firstn_skipn 32 (b_wake b)), map_app in A3.
-        apply in_map_iff in G. destruct G as [u1 [E1 G]].
-        apply (NoDup_app_disjoint _ _ A3 (u_conn u)); [rewrite <- E1; apply in_map; exact G|apply in_map; exact Hu].
+    destruct (process_wakeups_misc now s b) as (F1 & _ & _).
+    split.
+    + assert (HA' : agreeW (with_wake b (skipn 32 (b_wake b))) (firstn 32 (b_wake b) ++ b_wake (with_wake b (skipn 32 (b_wake b))))).
+      { cbn [with_wake b_wake]. unfold agreeW. rewrite firstn_skipn. apply agreeW_self in HA. unfold agreeW in HA. destruct b; exact HA. }
+      unfold process_wakeups.
+      apply (wake_fold_gone now (fun c => zlookup c (s_conns s) = None) (firstn 32 (b_wake b)) s (with_wake b (skipn 32 (b_wake b))) HA' Ecr).
+      intros x Hx Hn. cbn [with_wake b_wake b_blk] in Hx, Hn. rewrite firstn_skipn in Hx. apply HO; assumption.
     + intros c0 Hin. rewrite F1 in Hin. apply HD. exact Hin.
   - (* timeouts *)
     right. cbn [fst snd]. split; [apply agree_process_timeouts; exact HA|]. split; [exact H0|].
@@ -1484,7 +1552,7 @@ Proof.
            [right; exists st, k, v; split; [reflexivity|]; split; [eapply recheck_some; exact Er|]; split; reflexivity
            |left; split; reflexivity]).
     right. exists st, (u_key u), b0. split; [reflexivity|]. split; [exact U2|]. split; reflexivity.
-  - destruct r; cbn [snd]; left; split; reflexivity.
+  - destruct r; cbn [snd]; left; (split; first [reflexivity|exact (proj1 (proj2 (notify_key_ready_fields _ _ _)))|exact (proj1 (notify_key_ready_fields _ _ _))]).
 Qed.
 Definition delivery_of (b : blocking) (c : Z) (f : frame) : Prop :=
   exists st k v, zlookup c (b_blk b) = Some st /\ bmem k (bl_keys st) = true /\ f = FArray [FBulk k; FBulk v].
@@ -1505,7 +1573,7 @@ Proof.
     + destruct (IH s b (or_introl Ec)) as (new & H1 & H2 & H3 & H4). exists new. split; [exact H1|].
       split; [|split; assumption]. intros c f Hin. destruct (H2 c f Hin) as [G1 G2]. split; [right; exact G1|exact G2].
     + destruct H as [H|H]; [congruence|]. cbn [app] in H.
-      pose proof (agree_wake_client now s b u (l ++ b_wake b) H) as Hnext. rewrite <- (wake_client_wake now s b u) in Hnext.
+      pose proof (agree_wake_next now s b u l H) as Hnext.
       pose proof (wake_client_out now s b u (l ++ b_wake b) H) as Hout. cbv zeta in Hout.
       destruct (wake_client now s b u) as [s1 b1]. cbn [snd] in *.
       destruct (IH s1 b1 (or_intror Hnext)) as (new & H1 & H2 & H3 & H4).
@@ -1733,16 +1801,11 @@ Proof. apply reg_get_expire. Qed.
 Theorem fifo_unregister_keeps_order r db c rk :
   reg_get (unregister r db c) rk = if fst rk =? db then filter (not_conn c) (reg_get r rk) else reg_get r rk.
 Proof. apply reg_get_unregister. Qed.
-(** the wake queue is served from the front, 32 at a time *)
-Theorem fifo_wake_queue now s b : b_crashed b = false ->
-  b_wake (snd (process_wakeups now s b)) = skipn 32 (b_wake b) \/ b_crashed (snd (process_wakeups now s b)) = true.
-Proof.
-  intros _. left. unfold process_wakeups.
-  assert (G : forall l sb, b_wake (snd (fold_left (wake_step now) l sb)) = b_wake (snd sb)).
-  { induction l as [|u l IH]; intros sb; cbn [fold_left]; [reflexivity|]. rewrite IH.
-    unfold wake_step. destruct (b_crashed (snd sb)); [reflexivity|]. apply wake_client_wake. }
-  rewrite G. reflexivity.
-Qed.
+(** the wake queue is served from the front, 32 at a time; what the wake-ups themselves add
+    (the re-notification after an element was put back) joins its back *)
+Theorem fifo_wake_queue now s b :
+  exists ex, b_wake (snd (process_wakeups now s b)) = skipn 32 (b_wake b) ++ ex.
+Proof. exact (proj1 (proj2 (process_wakeups_misc now s b))). Qed.
 
 (** ================= the runner's functions are sequences of steps ================= *)
 Lemma h_bpop_crashed left now s b c dbi parts oms rep s' b' :
@@ -1866,11 +1929,7 @@ Qed.
 
 (** ================= the event loop never ends (since repair e1d4020) ================= *)
 Lemma wake_client_crashed now s b u : b_crashed (snd (wake_client now s b u)) = b_crashed b.
-Proof.
-  unfold wake_client. destruct (on_key _ (u_key u) (e_pop (u_left u))) as [r d'].
-  destruct (zlookup (u_conn u) (b_blk b)) as [st|];
-    [destruct (recheck (bl_left st) d' (bl_keys st)) as [[[k v]|] d'']|]; destruct r; reflexivity.
-Qed.
+Proof. apply wake_client_crashed0. Qed.
 Lemma wake_fold_crashed now : forall l sb, b_crashed (snd (fold_left (wake_step now) l sb)) = b_crashed (snd sb).
 Proof.
   induction l as [|u l IH]; intros sb; cbn [fold_left]; [reflexivity|]. rewrite IH.
